@@ -266,4 +266,161 @@ theorem RepS.atRef {T : List Nat} {s : HState} {p : PState} {F : Root → List N
               · exact Or.inr (Or.inr ⟨h1, fun r' he => he ▸ hxG⟩))
         exact key
 
+/-! ### rules for whole roots and temporary blocks -/
+
+def updF (F : Root → List Nat) (r : Root) (G : List Nat) : Root → List Nat := fun r' => if r' = r then G else F r'
+
+theorem RepS.emptySlot {T : List Nat} {s : HState} {p : PState} {F : Root → List Nat} (inv : RepS T s p F) (r : Root)
+    (hs : s.slot r = none) : p.get r = none ∧ F r = [] := by
+  have := inv.rel r
+  rw [hs] at this
+  cases hp : p.get r with
+  | none => rw [hp] at this; exact ⟨rfl, this⟩
+  | some v => rw [hp] at this; exact absurd this (by simp [SlotRel])
+
+theorem RepS.fullSlot {T : List Nat} {s : HState} {p : PState} {F : Root → List Nat} (inv : RepS T s p F) (r : Root) (a : Nat)
+    (hs : s.slot r = some a) : ∃ v, p.get r = some v ∧ RootRel s.h r a v (F r) := by
+  have := inv.rel r
+  rw [hs] at this
+  cases hp : p.get r with
+  | none => rw [hp] at this; exact absurd this (by simp [SlotRel])
+  | some v => rw [hp] at this; exact ⟨v, rfl, this⟩
+
+theorem RepS.slot_iff {T : List Nat} {s : HState} {p : PState} {F : Root → List Nat} (inv : RepS T s p F) (r : Root) :
+    (s.slot r).isNone = (p.get r).isNone := by
+  have := inv.rel r
+  cases hs : s.slot r <;> cases hp : p.get r <;> simp_all [SlotRel]
+
+/-- a new object in an empty slot, on fresh blocks -/
+theorem RepS.addRoot {T : List Nat} {s : HState} {p : PState} {F : Root → List Nat} (inv : RepS T s p F) (r0 : Root)
+    (hok : r0.ok = true) (hempty : s.slot r0 = none) (h' : Heap) (a : Nat) (v : V) (G : List Nat)
+    (hw' : h'.WF) (hle : s.h.next ≤ h'.next) (hfr : ∀ x, x < s.h.next → h'.cell x = s.h.cell x)
+    (hroot : RootRel h' r0 a v G) (hG : ∀ x, x ∈ G → s.h.next ≤ x ∧ x < h'.next)
+    (hcov : ∀ x, s.h.next ≤ x → (h'.cell x).isSome = true → x ∈ G) :
+    RepS T ⟨h', fun r' => if r' = r0 then some a else s.slot r'⟩ (setP p r0 (some v)) (updF F r0 G) := by
+  have hF0 := (inv.emptySlot r0 hempty).2
+  have key := RepS.frame inv (fun r' => r' = r0) h' (fun r' => if r' = r0 then some a else s.slot r') (setP p r0 (some v))
+    (updF F r0 G) [] hw' hle
+    (by intro r hr; have hne : r ≠ r0 := fun e => by rw [e, hok] at hr; cases hr
+        simp only [hne, if_false]; exact inv.ok r hr)
+    (fun r' hne => ⟨by simp [hne], by simp [setP_get, hne], by simp [updF, hne]⟩)
+    (by intro r' he; subst he; simp only [setP_get, updF, if_true]; exact hroot)
+    (by intro r' he x hx; subst he; simp only [updF, if_true] at hx; exact (hG x hx).2)
+    (by intro r' he x hx; subst he; simp only [updF, if_true] at hx; exact Or.inl (hG x hx).1)
+    (by intro r1 r2 e1 e2 hne; exact absurd (e1.trans e2.symm) hne)
+    (fun x hlt _ => hfr x hlt)
+    (by intro x hx; cases hx)
+    (by
+      intro x hl
+      by_cases hlt : x < s.h.next
+      · exact Or.inr (Or.inr ⟨hlt, fun r' he => by rw [he, hF0]; simp⟩)
+      · exact Or.inl ⟨r0, rfl, by simp only [updF, if_true]; exact hcov x (by omega) hl⟩)
+  exact key.congrT (fun a => by simp)
+
+/-- the temporary blocks become the object of an empty slot (an element / entry handed to the caller) -/
+theorem RepS.adopt {Tn : List Nat} {s : HState} {p : PState} {F : Root → List Nat} (inv : RepS Tn s p F) (r0 : Root)
+    (hok : r0.ok = true) (hempty : s.slot r0 = none) (a : Nat) (v : V) (G : List Nat)
+    (hroot : RootRel s.h r0 a v G) (hGT : ∀ x, x ∈ G ↔ x ∈ Tn) :
+    RepS [] ⟨s.h, fun r' => if r' = r0 then some a else s.slot r'⟩ (setP p r0 (some v)) (updF F r0 G) := by
+  have hF0 := (inv.emptySlot r0 hempty).2
+  refine ⟨inv.wf, ?_, ?_, ?_, ?_, (fun _ _ _ hm => by cases hm), (fun _ hm => by cases hm), ?_⟩
+  · intro r hr
+    have hne : r ≠ r0 := fun e => by rw [e, hok] at hr; cases hr
+    simp only [hne, if_false]; exact inv.ok r hr
+  · intro r
+    by_cases he : r = r0
+    · subst he; simp only [setP_get, updF, if_true]; exact hroot
+    · simp only [setP_get, updF, he, if_false]; exact inv.rel r
+  · intro r x hx
+    by_cases he : r = r0
+    · subst he; simp only [updF, if_true] at hx
+      exact isSome_lt inv.wf (inv.tlive x ((hGT x).mp hx))
+    · simp only [updF, he, if_false] at hx; exact inv.lt r x hx
+  · intro r r' hne x hx
+    by_cases he : r = r0 <;> by_cases he' : r' = r0
+    · exact absurd (he.trans he'.symm) hne
+    · subst he; simp only [updF, if_true] at hx; simp only [updF, he', if_false]
+      exact fun hm => inv.tdis r' x hm ((hGT x).mp hx)
+    · subst he'; simp only [updF, he, if_false] at hx; simp only [updF, if_true]
+      exact fun hm => inv.tdis r x hx ((hGT x).mp hm)
+    · simp only [updF, he, if_false] at hx; simp only [updF, he', if_false]
+      exact inv.dis r r' hne x hx
+  · intro x hl
+    rcases inv.cov x hl with ⟨r, hm⟩ | hm
+    · have he : r ≠ r0 := fun e => by rw [e, hF0] at hm; cases hm
+      exact Or.inl ⟨r, by simp only [updF, he, if_false]; exact hm⟩
+    · exact Or.inl ⟨r0, by simp only [updF, if_true]; exact (hGT x).mpr hm⟩
+
+/-- the object of a slot is released -/
+theorem RepS.dropRoot {T : List Nat} {s : HState} {p : PState} {F : Root → List Nat} (inv : RepS T s p F) (r0 : Root)
+    (h' : Heap) (G : List Nat) (hc : Cleared s.h h' G) (hG : ∀ x, x ∈ G ↔ x ∈ F r0) :
+    RepS T ⟨h', fun r' => if r' = r0 then none else s.slot r'⟩ (setP p r0 none) (updF F r0 []) := by
+  have key := RepS.frame inv (fun r' => r' = r0) h' (fun r' => if r' = r0 then none else s.slot r') (setP p r0 none)
+    (updF F r0 []) [] (Cleared.wf hc inv.wf) (by rw [hc.1]; exact Nat.le_refl _)
+    (by intro r hr; by_cases he : r = r0
+        · simp [he]
+        · simp only [he, if_false]; exact inv.ok r hr)
+    (fun r' hne => ⟨by simp [hne], by simp [setP_get, hne], by simp [updF, hne]⟩)
+    (by intro r' he; subst he; simp [setP_get, updF, SlotRel])
+    (by intro r' he x hx; subst he; simp [updF] at hx)
+    (by intro r' he x hx; subst he; simp [updF] at hx)
+    (by intro r1 r2 e1 e2 hne; exact absurd (e1.trans e2.symm) hne)
+    (by intro x _ hnot; rw [hc.2 x, if_neg (fun hm => hnot r0 rfl ((hG x).mp hm))])
+    (by intro x hx; cases hx)
+    (by
+      intro x hl
+      have hxG : x ∉ G := fun hm => by rw [hc.2 x, if_pos hm] at hl; cases hl
+      have hl' : (s.h.cell x).isSome = true := by rw [hc.2 x, if_neg hxG] at hl; exact hl
+      exact Or.inr (Or.inr ⟨isSome_lt inv.wf hl', fun r' he => by rw [he]; exact fun hm => hxG ((hG x).mpr hm)⟩))
+  exact key.congrT (fun a => by simp)
+
+/-- a temporary block is allocated (the normalised key the normaliser returns) -/
+theorem RepS.allocTemp {T : List Nat} {s : HState} {p : PState} {F : Root → List Nat} (inv : RepS T s p F) (c : Cell) :
+    RepS (T ++ [s.h.next]) ⟨(alloc s.h c).2, s.slot⟩ p F := by
+  refine ⟨alloc_WF s.h c inv.wf, inv.ok, ?_, ?_, inv.dis, ?_, ?_, ?_⟩
+  · intro r
+    exact SlotRel_congr s.h _ r _ _ _ (fun a ha => alloc_cell_lt s.h c a (inv.lt r a ha)) (inv.rel r)
+  · intro r a ha; have := inv.lt r a ha; show a < s.h.next + 1; omega
+  · intro r a ha hm
+    rcases List.mem_append.mp hm with hm | hm
+    · exact inv.tdis r a ha hm
+    · have := inv.lt r a ha; simp at hm; omega
+  · intro a hm
+    show ((alloc s.h c).2.cell a).isSome = true
+    rcases List.mem_append.mp hm with hm | hm
+    · rw [alloc_cell_lt s.h c a (isSome_lt inv.wf (inv.tlive a hm))]; exact inv.tlive a hm
+    · simp at hm; subst hm; simp [alloc_cell]
+  · intro a hl
+    by_cases he : a = s.h.next
+    · exact Or.inr (by simp [he])
+    · have hl' : (s.h.cell a).isSome = true := by
+        have : (alloc s.h c).2.cell a = s.h.cell a := by rw [alloc_cell]; simp [he]
+        rw [← this]; exact hl
+      exact (inv.cov a hl').imp id (fun hm => List.mem_append_left _ hm)
+
+/-- a temporary block is released -/
+theorem RepS.freeTemp {T T' : List Nat} {s : HState} {p : PState} {F : Root → List Nat} (inv : RepS T s p F) (k : Nat)
+    (hk : k ∈ T) (hT' : ∀ x, x ∈ T' ↔ (x ∈ T ∧ x ≠ k)) :
+    ∃ h', free s.h k = some h' ∧ RepS T' ⟨h', s.slot⟩ p F := by
+  have hl := inv.tlive k hk
+  cases hc : s.h.cell k with
+  | none => rw [hc] at hl; cases hl
+  | some c =>
+    obtain ⟨h', hf, hn, hcell⟩ := free_spec s.h k c hc
+    have hcl : Cleared s.h h' [k] := ⟨hn, fun x => by rw [hcell x]; simp⟩
+    refine ⟨h', hf, Cleared.wf hcl inv.wf, inv.ok, ?_, ?_, inv.dis, ?_, ?_, ?_⟩
+    · intro r
+      exact SlotRel_congr s.h h' r _ _ _ (fun a ha => by
+        rw [hcell a, if_neg (fun (e : a = k) => inv.tdis r a ha (e ▸ hk))]) (inv.rel r)
+    · intro r a ha; show a < h'.next; rw [hn]; exact inv.lt r a ha
+    · intro r a ha hm; exact inv.tdis r a ha ((hT' a).mp hm).1
+    · intro a hm
+      obtain ⟨h1, h2⟩ := (hT' a).mp hm
+      show (h'.cell a).isSome = true
+      rw [hcell a, if_neg h2]; exact inv.tlive a h1
+    · intro a hl'
+      have hne : a ≠ k := fun e => by rw [show h'.cell a = none by rw [hcell a, if_pos e]] at hl'; cases hl'
+      have : (s.h.cell a).isSome = true := by rw [show h'.cell a = s.h.cell a by rw [hcell a, if_neg hne]] at hl'; exact hl'
+      exact (inv.cov a this).imp id (fun hm => (hT' a).mpr ⟨hm, hne⟩)
+
 end CifModel.Model.Hist
